@@ -348,3 +348,28 @@ def gen_retention(rng, focus, k=None, maxops=40):
     if focus == "C16":
         g.emit("ls")
     return cfg, g.ops
+
+
+def gen_crash(rng, focus, k=None, maxops=24):
+    """C04: short data-plane histories without restarts (the crash images are the restarts): sends with
+    small save thresholds and 600 B segments (roll-overs), flushes, saves, offset stores, a retention
+    pass now and then."""
+    cfg = draw_cfg(rng, k, {"seg": rng.choice([600, 600, 4000]), "save": rng.choice([1, 2, 3, 3, 10]), "dedup": 0,
+                            "cache": 0})
+    g = Gen(rng, focus, nparts=rng.choice([1, 1, 2]))
+    preamble(g)
+    n = rng.randint(6, maxops)
+    for _ in range(n):
+        r = rng.random()
+        if r < 0.6:
+            g.send(0.0, balanced_ok=False)
+        elif r < 0.7:
+            g.emit(f"flush 0 #1 #1 {g.part()} 0")
+        elif r < 0.78:
+            g.emit("save")
+        elif r < 0.9:
+            p = g.part()
+            g.emit(f"store-offset 0 #1 #1 {p} c:#1 {rng.randint(0, max(0, g.sent[p]))}")
+        else:
+            g.poll(auto_ok=True)
+    return cfg, g.ops
